@@ -1,4 +1,272 @@
-import PV.Model.IPC
-namespace PV.IPC
-theorem c07_placeholder : (OS.init.shmNames 0) = none := rfl
-end PV.IPC
+import PV.Lemmas.IPC
+/-!
+# C07 — shared memory (`pshm-posix.c` over the POSIX name space model `PV.IPC.OS`)
+
+Model `PV.Model.IPC` with the facts extracted from the current source (`PV.Generated.IPC`; the
+F5-repaired `pp_shm_create_handle`).  `G.call` = one thread runs its library call to the end
+(sequentially); schedules (`List Action`) = arbitrary interleavings incl. SIGKILL.
+Statements about `p_shm_new` are for calls that run sequentially (any schedule may run before and
+between them); the lock (`lock_is_mutex`) is proved for every interleaving.  What is FALSE of the
+code — concurrent first-time creation (F11) and the crash point that leaves a zero-size
+segment — is kept as a comment with the negation proved on a concrete witness.
+-/
+namespace PV.IPC.C07
+open PV.IPC PV.Generated.IPC
+
+/-- the segment a live PShm handle is mapped to -/
+def segOf (g : G) (h : Hid) : Option SegId :=
+  match g.hs h with
+  | some (p, .shm y) => (findMap (g.os.procs p) y.addr).map (·.seg)
+  | _ => none
+
+/-- the lock object a live PShm handle uses -/
+def lockOf (g : G) (h : Hid) : Option ObjId :=
+  match g.hs h with
+  | some (_, .shm y) => some y.sem.obj
+  | _ => none
+
+/-! ## sizes -/
+
+/-- a creator sees exactly the size it asked for, and the segment has exactly that many (zero) bytes -/
+theorem creator_size_exact (g : G) (t : Tid) (h : Hid) (k : ShmKey) (size : Nat) (ro : Bool)
+    (hi : Idle g t) (hh : g.hs h = none) (hk : g.os.shmNames k = none) (hs : size ≠ 0) :
+    let g' := g.call t (.newShm h k size ro)
+    ∃ y, g'.hs h = some (g.pidOf t, .shm y) ∧ y.size = size ∧ y.created = true ∧
+      g'.os.shmNames k = some g.os.nextSeg ∧ (g'.os.segs g.os.nextSeg).bytes = List.replicate size 0 := by
+  simp only
+  cases hl : g.os.semNames (.lock k) with
+  | none =>
+    have c := call_newShm_fresh g t h k size ro hi hh hk hl hs
+    refine ⟨creatorHandle g t k size ro, by rw [c.2.1]; simp, rfl, rfl, ?_, ?_⟩ <;>
+      (rw [c.1]; simp [OS.semCreate, OS.afterShmNew, OS.shmCreate])
+  | some ol =>
+    have c := call_newShm_fresh_stale_lock g t h k size ro ol hi hh hk hl hs
+    refine ⟨creatorHandle g t k size ro, by rw [c.2.1]; simp, rfl, rfl, ?_, ?_⟩ <;>
+      (rw [c.1]; simp [OS.semCreate, OS.semRemove, OS.afterShmNew, OS.shmCreate])
+
+/-- the size a handle opened on an existing segment of `L` bytes reports depends only on the size
+    argument and `L` (`repSize`): … -/
+theorem follower_size (g : G) (t : Tid) (h : Hid) (k : ShmKey) (req : Nat) (ro : Bool) (s : SegId)
+    (hi : Idle g t) (hh : g.hs h = none) (hk : g.os.shmNames k = some s) (hL : (g.os.segs s).bytes.length ≠ 0) :
+    ∃ y, (g.call t (.newShm h k req ro)).hs h = some (g.pidOf t, .shm y) ∧
+      y.size = repSize req (g.os.segs s).bytes.length ∧ y.created = false ∧
+      (g.call t (.newShm h k req ro)).os.shmNames = g.os.shmNames ∧ (g.call t (.newShm h k req ro)).os.segs = g.os.segs := by
+  cases hl : g.os.semNames (.lock k) with
+  | none =>
+    have c := call_newShm_existing_no_lock g t h k req ro s hi hh hk hl hL
+    exact ⟨followerHandle g t k req (g.os.segs s).bytes.length ro true g.os.nextObj, by rw [c.2.1]; simp, rfl, rfl,
+      by rw [c.1]; rfl, by rw [c.1]; rfl⟩
+  | some ol =>
+    have c := call_newShm_existing g t h k req ro s ol hi hh hk hl hL
+    exact ⟨followerHandle g t k req (g.os.segs s).bytes.length ro false ol, by rw [c.2.1]; simp, rfl, rfl,
+      by rw [c.1]; rfl, by rw [c.1]; rfl⟩
+
+/-- … so handles created with the same size argument report the same size: two followers of one
+    segment, and a follower that passes the creator's own argument -/
+theorem same_arg_same_size (req L : Nat) :
+    (∀ L', L' = L → repSize req L' = repSize req L) ∧ (req ≠ 0 → repSize req req = req) ∧
+    (req = 0 → repSize req L = L) ∧ (L ≤ req → repSize req L = L) ∧ (req ≠ 0 → req ≤ L → repSize req L = req) := by
+  refine ⟨fun L' e => by rw [e], ?_, ?_, ?_, ?_⟩ <;> intros <;> simp only [repSize] <;> split <;> omega
+
+/-! ## EINTR (cited by C19) -/
+
+theorem shm_lock_eintr_transparent (g : G) (t : Tid) (h : Hid) (script : List Nat) :
+    (g.call t (.lock h) script).Same (g.call t (.lock h) []) :=
+  eintr_transparent g t (.lock h) script
+
+theorem shm_open_eintr_transparent (g : G) (t : Tid) (h : Hid) (k : ShmKey) (size : Nat) (ro : Bool) (script : List Nat) :
+    (g.call t (.newShm h k size ro) script).Same (g.call t (.newShm h k size ro) []) :=
+  eintr_transparent g t (.newShm h k size ro) script
+
+/-! ## the lock -/
+
+/-- a sequential first creation leaves all lock handles of the name agreeing on one object of value 1 -/
+theorem creation_establishes_lock (g : G) (t : Tid) (h : Hid) (k : ShmKey) (size : Nat) (ro : Bool)
+    (hi : Idle g t) (hh : g.hs h = none) (hk : g.os.shmNames k = none) (hs : size ≠ 0)
+    (hnone : ∀ h' p x, g.hs h' = some (p, x) → ¬ (match x with | .sem z => z.key = .lock k | .shm z => z.sem.key = .lock k)) :
+    let g' := g.call t (.newShm h k size ro)
+    Agree (.lock k) g.os.nextObj g' ∧ (g'.os.sems g.os.nextObj).value = 1 ∧ g.os.nextObj < g'.os.nextObj := by
+  simp only
+  have key : ∀ g' : G, g'.os.semNames (.lock k) = some g.os.nextObj →
+      g'.hs = (fun h' => if h' = h then some (g.pidOf t, .shm (creatorHandle g t k size ro)) else g.hs h') →
+      Agree (.lock k) g.os.nextObj g' := by
+    intro g' hn hhs
+    refine ⟨hn, ?_, ?_⟩
+    · intro h' p x hx hkx
+      rw [hhs] at hx
+      dsimp only at hx
+      split at hx
+      · simp at hx
+      · exact absurd hkx (hnone h' p (.sem x) hx)
+    · intro h' p y hy hky
+      rw [hhs] at hy
+      dsimp only at hy
+      split at hy
+      · simp only [Option.some.injEq, Prod.mk.injEq, Handle.shm.injEq] at hy
+        rw [← hy.2]; rfl
+      · exact absurd hky (hnone h' p (.shm y) hy)
+  cases hl : g.os.semNames (.lock k) with
+  | none =>
+    have c := call_newShm_fresh g t h k size ro hi hh hk hl hs
+    refine ⟨key _ (by rw [c.1]; simp [OS.semCreate, OS.afterShmNew, OS.shmCreate]) c.2.1, by rw [c.1]; simp [OS.semCreate, OS.afterShmNew, OS.shmCreate],
+      by rw [c.1]; simp [OS.semCreate, OS.afterShmNew, OS.shmCreate]⟩
+  | some ol =>
+    have c := call_newShm_fresh_stale_lock g t h k size ro ol hi hh hk hl hs
+    refine ⟨key _ (by rw [c.1]; simp [OS.semCreate, OS.semRemove, OS.afterShmNew, OS.shmCreate]) c.2.1,
+      by rw [c.1]; simp [OS.semCreate, OS.semRemove, OS.afterShmNew, OS.shmCreate],
+      by rw [c.1]; simp [OS.semCreate, OS.semRemove, OS.afterShmNew, OS.shmCreate]⟩
+
+/-- `p_shm_lock` / `p_shm_unlock` through ALL handles of a name — in any thread or process, for
+    EVERY interleaving, handles opened at any time by calls that are OPEN-mode on the lock (i.e. by
+    followers: `QuietRun (.lock k)`) — act on one object: every such handle's lock is `o`, and the
+    number of successful locks minus unlocks since a state with value 1 never exceeds 1.
+    (C06 `k_exclusion` with v = 1.)  The hypotheses hold after a sequential creation
+    (`creation_establishes_lock`); with two concurrent first creators they do not (F11 b). -/
+theorem lock_is_mutex (k : ShmKey) (o : ObjId) (g : G) (as : List Action)
+    (hA : Agree (.lock k) o g) (hv : (g.os.sems o).value = 1) (ho : o < g.os.nextObj) (hq : QuietRun (.lock k) g as) :
+    Agree (.lock k) o (execAll g as) ∧
+    (∀ h p y, (execAll g as).hs h = some (p, .shm y) → y.key = k → y.sem.key = .lock k →
+        acquireNext y.sem = .semWait o ∧ releaseNext y.sem = .semPost o) ∧
+    acquired o (execAll g as).log - acquired o g.log ≤ 1 + (released o (execAll g as).log - released o g.log) := by
+  have hA' := agree_execAll (.lock k) o as g hA hq
+  refine ⟨hA', ?_, ?_⟩
+  · intro h p y hy _ hky
+    have := hA'.2.2 h p y hy hky
+    simp [acquireNext, releaseNext, this]
+  · have h := (counter_execAll o as g ho).1
+    have mono : ∀ (as : List Action) (g : G), acquired o g.log ≤ acquired o (execAll g as).log ∧
+        released o g.log ≤ released o (execAll g as).log := by
+      intro as
+      induction as with
+      | nil => intro g; exact ⟨Nat.le_refl _, Nat.le_refl _⟩
+      | cons a as ih =>
+        intro g
+        have h2 := ih (exec g a)
+        have h1 : acquired o g.log ≤ acquired o (exec g a).log ∧ released o g.log ≤ released o (exec g a).log := by
+          cases a with
+          | start t op => simp only [exec]; rw [start_log]; exact ⟨Nat.le_refl _, Nat.le_refl _⟩
+          | kill p => exact ⟨Nat.le_refl _, Nat.le_refl _⟩
+          | step t i =>
+            simp only [exec]
+            cases hc : g.calls t with
+            | none => rw [step_none g t i hc]; exact ⟨Nat.le_refl _, Nat.le_refl _⟩
+            | some c =>
+              rw [step_log g t i c hc]
+              simp only [acquired, released, List.filter_cons]
+              constructor <;> split <;> simp
+        simp only [execAll, List.foldl_cons] at h2 ⊢
+        exact ⟨Nat.le_trans h1.1 h2.1, Nat.le_trans h1.2 h2.2⟩
+    have m := mono as g
+    omega
+
+/-! ## concurrent first-time creation (F11) -/
+
+/-- schedule of two threads: `true` = thread 0 makes its next system call, `false` = thread 1 -/
+def sched (s : List Bool) : List Action := s.map fun b => if b then Action.step 0 false else Action.step 1 false
+
+/-- two processes have just called `p_shm_new (name 0, size)` for the first time -/
+def raceStart (size : Nat) : G :=
+  ((G.init id).start 0 (.newShm 0 0 size false)).start 1 (.newShm 1 0 size false)
+
+/-- both calls returned a handle, and the two handles share segment and lock semaphore -/
+def raceOK (g : G) : Bool :=
+  (segOf g 0).isSome && (segOf g 1).isSome && decide (segOf g 0 = segOf g 1) &&
+  (lockOf g 0).isSome && decide (lockOf g 0 = lockOf g 1) && decide (g.calls 0 = none) && decide (g.calls 1 = none)
+
+/-
+  FULL STATEMENT (false of the code — F11):
+
+  theorem first_open_race (s : List Bool) (hs : s is an interleaving of all system calls of the two calls) :
+      raceOK (execAll (raceStart size) (sched s)) = true
+
+  Window (a): the follower's `fstat` runs between the creator's `shm_open` and `ftruncate`: it sees
+  size 0, `mmap` of length 0 fails (EINVAL), `p_shm_new` returns NULL although the segment is being created.
+  Window (b): the follower's exclusive `sem_open` of the lock runs before the creator's: the follower
+  creates the lock, the creator's CREATE-mode `p_semaphore_new` unlinks it and makes a second one:
+  both calls succeed and the two handles lock DIFFERENT semaphores.
+-/
+
+def tt : Bool := true
+def ff : Bool := false
+
+/-- window (a), exhibited: a b b b a a a a b b b b -/
+def witnessA : List Bool := [tt, ff, ff, ff, tt, tt, tt, tt, ff, ff, ff, ff]
+/-- window (b), exhibited: a a a a b b b b b b a a a -/
+def witnessB : List Bool := [tt, tt, tt, tt, ff, ff, ff, ff, ff, ff, tt, tt, tt]
+
+set_option maxRecDepth 100000 in
+/-- negation of `first_open_race`, window (a): the follower fails with EINVAL while the creator succeeds -/
+theorem first_open_race_false_a :
+    (execAll (raceStart 4096) (sched witnessA)).ret 1 = some (.fail .EINVAL) ∧
+    (segOf (execAll (raceStart 4096) (sched witnessA)) 0).isSome = true ∧
+    raceOK (execAll (raceStart 4096) (sched witnessA)) = false := by decide
+
+set_option maxRecDepth 100000 in
+/-- negation of `first_open_race`, window (b): both succeed, same segment, two different lock semaphores
+    (each of value 1: both processes can hold "the" lock at once) -/
+theorem first_open_race_false_b :
+    segOf (execAll (raceStart 4096) (sched witnessB)) 0 = segOf (execAll (raceStart 4096) (sched witnessB)) 1 ∧
+    lockOf (execAll (raceStart 4096) (sched witnessB)) 0 = some 1 ∧
+    lockOf (execAll (raceStart 4096) (sched witnessB)) 1 = some 0 ∧
+    ((execAll (raceStart 4096) (sched witnessB)).os.sems 0).value = 1 ∧
+    ((execAll (raceStart 4096) (sched witnessB)).os.sems 1).value = 1 ∧
+    raceOK (execAll (raceStart 4096) (sched witnessB)) = false := by decide
+
+/-- all schedules of length `len` in which thread 0 makes exactly `m` steps -/
+def interleavings : Nat → Nat → List (List Bool)
+  | 0, 0 => [[]]
+  | 0, _ + 1 => []
+  | len + 1, 0 => (interleavings len 0).map (false :: ·)
+  | len + 1, m + 1 => ((interleavings len m).map (true :: ·)) ++ ((interleavings len (m + 1)).map (false :: ·))
+
+theorem mem_interleavings (s : List Bool) : s ∈ interleavings s.length (s.count true) := by
+  induction s with
+  | nil => simp [interleavings]
+  | cons b s ih =>
+    cases b
+    · simp only [List.length_cons, List.count_cons_of_ne (by decide : (false : Bool) ≠ true)]
+      cases hm : s.count true with
+      | zero =>
+        rw [hm] at ih
+        simp only [interleavings, List.mem_map]
+        exact ⟨s, ih, rfl⟩
+      | succ m =>
+        rw [hm] at ih
+        simp only [interleavings, List.mem_append, List.mem_map]
+        right; exact ⟨s, ih, rfl⟩
+    · simp only [List.length_cons, List.count_cons_self]
+      simp only [interleavings, List.mem_append, List.mem_map]
+      left; exact ⟨s, ih, rfl⟩
+
+/-- position (0-based) of the `n`-th (1-based) occurrence of `b` -/
+def posOf (b : Bool) : Nat → List Bool → Nat
+  | _, [] => 0
+  | n, x :: xs => if x = b then (if n ≤ 1 then 0 else 1 + posOf b (n - 1) xs) else 1 + posOf b n xs
+
+/-- thread 0 is the creator (5 system calls), thread 1 the follower (7); the schedule avoids both
+    windows: the creator's `ftruncate` (its 2nd call) precedes the follower's `fstat` (its 3rd), and
+    the creator's `sem_open` (its 5th) precedes the follower's first `sem_open` (its 6th) -/
+def avoidsWindows (s : List Bool) : Bool :=
+  decide (s.head? = some true) && decide (posOf true 2 s < posOf false 3 s) && decide (posOf true 5 s < posOf false 6 s)
+
+set_option maxRecDepth 1000000 in
+theorem race_enumerated :
+    ((interleavings 12 5).all fun s => !avoidsWindows s || raceOK (execAll (raceStart 4096) (sched s))) = true := by
+  decide +kernel
+
+/-- For EVERY interleaving of the creator's 5 and the follower's 7 system calls that avoids the two
+    windows, both `p_shm_new` calls succeed and the handles share segment AND lock semaphore. -/
+theorem first_open_race_partial (s : List Bool) (h5 : s.count true = 5) (h7 : s.count false = 7)
+    (hw : avoidsWindows s = true) : raceOK (execAll (raceStart 4096) (sched s)) = true := by
+  have hm := mem_interleavings s
+  have hlen : s.length = 12 := by
+    have := List.length_eq_countP_add_countP (l := s) (· == true)
+    have e1 : List.countP (fun x => x == true) s = s.count true := by simp [List.count]
+    have e2 : List.countP (fun a => decide ¬(a == true) = true) s = s.count false := by
+      simp only [List.count]; congr 1; funext a; cases a <;> rfl
+    omega
+  rw [h5, hlen] at hm
+  have := List.all_eq_true.mp race_enumerated s hm
+  simpa [hw] using this
+
+end PV.IPC.C07
